@@ -153,3 +153,22 @@ def code_table(lang, text):
         nl = v.count("\n")
         out.append({"l": line, "c": col, "el": line + nl, "ec": (len(v) - v.rfind("\n")) if nl else col + len(v), "name": v if ty in Name else ""})
     return out
+
+
+def far_texts():
+    """[(language, origin, text)]: well-formed functions far out - behind 70000 blanks on their line, around a 66000-character
+    literal, below a 70000-line comment.  Columns and lines beyond 2^16 are ordinary positions."""
+    out = []
+    for lang in LANGS:
+        if lang == "Python":
+            wide = "if x:\n" + " " * 70000 + "def far(a):\n" + " " * 70004 + "return a\n"
+            lit = "def lit(a):\n    s = \"" + "a" * 66000 + "\"; t = 1\n    return a\n"
+            tall = '"""' + "\n" * 70000 + '"""\ndef low(a):\n    return a\n'
+        else:
+            hdr = {"JavaScript": "function NAME(a) {", "TypeScript": "function NAME(a: number): number {"}.get(lang, "int NAME(int a) {")
+            pre, post = ("class K {\n", "}\n") if lang in ("Java", "C#") else ("", "")
+            wide = pre + " " * 70000 + hdr.replace("NAME", "far") + "\n  return a;\n}\n" + post
+            lit = pre + hdr.replace("NAME", "lit") + "\n  s = \"" + "a" * 66000 + "\"; t = 1;\n  return a;\n}\n" + post
+            tall = "/*" + "\n" * 70000 + "*/ " + pre + hdr.replace("NAME", "low") + "\n  return a;\n}\n" + post
+        out += [(lang, "far/wide", wide), (lang, "far/literal", lit), (lang, "far/tall", tall)]
+    return out
